@@ -1,7 +1,33 @@
-"""C36, DBOS half: the REAL `DBOSIdleReleaseDecorator` (llama_agents/dbos/idle_release.py) over an emulated DBOS base.
+"""C36 / C26, DBOS half: the REAL `DBOSIdleReleaseDecorator` (llama_agents/dbos/idle_release.py) over an emulated DBOS base.
 
-Public surface (to be wired into vlib/props/c36.py): `setup()`, `strategy(tier)`, `run_case(case) -> CaseResult`, `RULE`,
-`ASSUMPTIONS`, `FLAGS`, `in_domain(case)`.
+Public surface (wired into vlib/props/c36.py and vlib/props/c26.py): `setup()`, `strategy(tier, bursts=False)`, `run_case(case) ->
+CaseResult`, `RULE`, `ASSUMPTIONS`, `RULE_BURSTS`, `ASSUMPTIONS_BURSTS`, `FLAGS`, `in_domain(case)`.  C36 uses `strategy(tier)` (one send
+per position, timing around the release); C26 uses `strategy(tier, bursts=True)` (CONCURRENT senders around the release / resume).
+
+CASE FORMAT.  {"total": positions (= len(gaps) = len(work)), "idle_timeout", "gaps": [...], "work": [...], "workers", "wake",
+"release_takes", "ties"} plus two OPTIONAL keys (absent = the behaviour before they existed, every older replay keeps its meaning):
+  * "burst": list aligned with `gaps`, entry null or {"pre": [k0, k1(, k2)], "order": [permutation]}.  At that position, instead
+    of one send, len(pre) (2-3) DISTINCT replies are sent concurrently: task i is the i-th task started at the instant of the send,
+    yields pre[i] times to the event loop (`await asyncio.sleep(0)`) and then sends reply number first+order[i] through its own
+    external adapter.  Replies are numbered consecutively over the positions (`_layout`); the workflow waits for the larger total;
+    `work[p]` applies to every reply of position p; a wake-up `at` position p is armed by the first reply of p.  The driver goes on
+    to the next position when every reply of the burst was processed.  Oracle: "in order" becomes "each reply exactly once, positions
+    never go back" (the order among the replies of one burst is free); each step must have seen exactly the replies recorded before
+    it in the final record.
+  * "io_yields": list of ints, a cyclic supply of event-loop yields spent at the entry and at the exit of every emulated
+    lifecycle-lock call (begin_release / complete_release / try_begin_resume) and DBOS call (retrieve / get_result / delete).
+    Absent or empty: those calls never suspend.  Only admitted with FLAGS["resume_not_atomic"] (see below).
+
+OBSERVERS for the C26 clauses (active for every case, quiet for the C36 family on the unchanged tree):
+  * every `EmuBase.run_workflow` records how many earlier base runs of the id are still alive (task not done); the life spans of
+    `_ControlLoopRunner.run` per run id are recorded by genwf's probe -> `two_live_control_loops` if a base run is started while
+    an earlier one is alive or two spans overlap.  (`DBOS.delete_workflow_async` of a run that is still executing forgets the id
+    but leaves the old control loop running, as DBOS leaves the coroutine running when its rows are deleted.)
+  * every call of `DBOSIdleReleaseDecorator._do_resume` (harness-side wrapper on the instance) and every `released` grant of
+    try_begin_resume is placed in the lifecycle-lock log -> `released_run_resumed_twice` if one release is followed by two resume
+    calls or two grants before the next release; `resume_of_unreleased_run` for a resume call before any release.
+  * `send_raised` for any exception out of a (concurrent) send, e.g. the base's "already exists" / "No active workflow";
+    `send_never_returned` for a send that is still pending when nothing is left that could wake it.
 
 What runs unmodified (repository code): DBOSIdleReleaseDecorator with its internal/external run adapters (timer bookkeeping,
 begin_release / TickIdleRelease / _await_and_mark_released, try_begin_resume / the `releasing` poll / _do_resume incl. the rebuild
@@ -18,8 +44,8 @@ EMULATED / TRUSTED (`ASSUMPTIONS` below says the same, one item per string):
       - `DBOS.retrieve_workflow_async(run_id)` -> a handle whose `get_result()` waits for the most recent base run with that id
         to end and returns its result / re-raises its error (unknown id: `DBOSNonExistentWorkflowError`);
       - `DBOS.delete_workflow_async(run_id)` -> forgets that run in the base runtime so the same id can be started again (in
-        DBOS: deletes the workflow's rows).  A delete of a still-running run would make the case inconclusive (RuntimeError ->
-        harness error); it never happens on the unchanged tree.
+        DBOS: deletes the workflow's rows).  A delete of a still-running run forgets the id but leaves the old control loop running
+        (reported as `two_live_control_loops` as soon as another run is started under the id); it never happens on the unchanged tree.
   * the DBOS engine itself (`DBOSRuntime`, `InternalDBOSAdapter`, `ExternalDBOSAdapter`, DBOS.send/recv, journal) is replaced by
     `EmuBase`, a `BasicRuntime` subclass: asyncio queues instead of DBOS notifications (ZERO delivery latency), the generated
     tie-break of genwf.SimRuntime among simultaneously finished workers, and DBOS's durable per-run-id state store: the run's
@@ -80,6 +106,24 @@ release_takes=0):
                            the release drops it and the reload does not re-arm it (C14's subject, not C36's).
                            {"total":2,"idle_timeout":2.0,"gaps":[0.5,"just_after"],"work":[0,0],"wake":{"kind":"retry",
                            "delay":3.0,"at":0}} -> reply 0 never processed.
+  * resume_not_atomic      (found by the C26 bursts) every lifecycle-lock / DBOS call the decorator makes returns without suspending,
+                           so a resume (CAS released->active ... run_workflow) is ATOMIC with respect to other senders.  In
+                           production each of these calls is database I/O.  `try_begin_resume` flips the row to `active` at the
+                           START of the resume; a second sender that asks while the first is suspended inside `_do_resume`
+                           (retrieve / get_result / store.query / append_tick / delete) gets None ("missing or active") and
+                           hands its event to `self._decorated.send_event`, i.e. to the OLD, finished run: the event is accepted
+                           and never processed (the run is released again with the reply missing, nobody reloads it), or --
+                           between delete_workflow and run_workflow -- the send raises ("No active workflow"; DBOS: send to a
+                           non-existent workflow).  Nothing else than the lifecycle row guards the resume (the in-process
+                           decorator has `_reload_lock`).  {"total":2,"idle_timeout":1.0,"gaps":[0.5,3.0],"work":[0,0],
+                           "workers":1,"wake":null,"release_takes":0,"ties":[],"burst":[null,{"pre":[0,0],"order":[0,1]}],
+                           "io_yields":[1]} -> send_after_release_did_not_reload_run + replies_lost_or_duplicated (reply 2 accepted,
+                           never processed); C26_DBOS_FLAGS=resume_not_atomic makes the burst strategy generate io_yields.
+                           Emulation dependence: "an event sent to the finished old workflow is not delivered to the run
+                           started under the same id after delete_workflow" (DBOS deletes the notifications of a deleted
+                           workflow).  With the flag off the bursts still decide order/uniqueness of concurrent sends, the
+                           simultaneous 0.5 s polls of several senders on a `releasing` run, the single resume per release and
+                           any resume the decorator starts without awaiting it.
 """
 
 from __future__ import annotations
@@ -106,8 +150,9 @@ MARK_AFTER = 2.5  # the harness samples what a client sees this long after a run
 # (C36_DBOS_FLAGS="multi_cycle,exact_deadline"); ./check never sets them.
 # (wake_step_outlasts_timer and send_ties_with_wakeup are part of the claimed domain since the repository fix 47be180: the decorator now
 #  cancels the pending release timer on every tick the run processes; they are kept as names for the history in the docstring)
-FLAGS = {"multi_cycle": False, "exact_deadline": False, "wake_after_release": False, "wake_step_outlasts_timer": True, "send_ties_with_wakeup": True}
-for _f in filter(None, os.environ.get("C36_DBOS_FLAGS", "").split(",")):
+FLAGS = {"multi_cycle": False, "exact_deadline": False, "wake_after_release": False, "wake_step_outlasts_timer": True, "send_ties_with_wakeup": True,
+         "resume_not_atomic": False}
+for _f in filter(None, (os.environ.get("C36_DBOS_FLAGS", "") + "," + os.environ.get("C26_DBOS_FLAGS", "")).split(",")):
     FLAGS[_f.strip()] = True
 
 RULE = (
@@ -127,6 +172,26 @@ RULE = (
     "run completed with the full list; (d) no send raises; an armed timed wake-up fires when due. Non-trivial = at least one "
     "release followed by a reload that continued the run to completion."
 )
+RULE_BURSTS = (
+    "CONCURRENT SENDERS (C26 family, strategy(bursts=True)): 2-4 positions; at least one position -- whose gap lies 2^-10 s / 0.25 s "
+    "before the release deadline, 2^-10 s / 0.25 s after it, or beyond it -- and each other position with probability 1/4 sends a burst "
+    "of 2-3 DISTINCT replies concurrently: one task per reply, all started at the same virtual instant in a generated order, each "
+    "yielding 0-3 times to the event loop before its send, so that the senders meet the run active just before the timer fires, "
+    "`releasing` (slow releasing->released write: they poll together) or released (they race for the resume). The workflow waits for "
+    "all replies. Oracle in addition to the above: every reply is processed exactly once (order among the replies of one burst is "
+    "free, positions never go back; each step saw exactly the replies recorded before it); no send raises; per release at most one "
+    "`released` grant and at most one _do_resume call before the next release, none before the first release; no base run is started "
+    "while an earlier run of the id is alive and the control-loop life spans of the id never overlap. Non-trivial = the run completed "
+    "and a burst hit a releasing/released run or landed within 0.25 s before the deadline (or the C36 rule)."
+)
+ASSUMPTIONS_BURSTS = [
+    "concurrent senders are tasks of one event loop (one process, one replica); their interleaving is the generated start order and the "
+    "generated numbers of event-loop yields before each send",
+    "restricted domain (vlib/dbos_idle.FLAGS['resume_not_atomic'] off): the emulated lifecycle-lock and DBOS calls never suspend, so a "
+    "resume is atomic with respect to other senders; with suspending calls (as with a database) a second sender that finds the row "
+    "already `active` hands its event to the old, finished run while the first is still inside _do_resume -- event lost or send raises; "
+    "reported (module docstring), not claimed",
+]
 ASSUMPTIONS = [
     "DBOS half runs the real DBOSIdleReleaseDecorator / EventInterceptorDecorator / TickPersistenceDecorator / MemoryWorkflowStore / control loop; "
     "`dbos`, `asyncpg`, `sqlalchemy` are the import-only stand-ins of /verif/shims",
@@ -139,10 +204,11 @@ ASSUMPTIONS = [
     "generated duration of the releasing->released write; the Postgres/SQLite locks are not run here",
     "the harness calls RunLifecycleLock.create(run_id) and inserts the handler row before starting the run (nothing in llama_agents.dbos "
     "creates the lifecycle row; without it no release happens); journal_crud=None; one process, one replica",
-    "restricted domain (vlib/dbos_idle.FLAGS, all off): one release/resume cycle per run (a second resume raises 'Worker 0 not found in "
-    "in_progress': the pending tick is never appended to the tick log); no send at exactly the release deadline or at the instant a "
-    "timed wake-up is due; a timed wake-up fires before the release and the step it starts ends before the earlier release timer "
-    "(the timer is only cancelled by received ticks) -- behaviour of the unchanged code outside this domain is reported, not claimed",
+    "restricted domain (vlib/dbos_idle.FLAGS): several release/resume cycles per run only with an instantaneous lifecycle lock "
+    "(release_takes == 0; with a slow releasing->released write at most one gap reaches the deadline); no send at exactly the release "
+    "deadline; a timed wake-up is due before the release (delay < idle_timeout) -- behaviour of the unchanged code outside this domain "
+    "is reported (module docstring, notes/C36-dbos-findings.md), not claimed.  (Since the repository fixes 5478692 and 47be180 several "
+    "cycles, wake-up steps that outlast the earlier timer and sends at the instant a wake-up is due ARE generated.)",
 ]
 
 _m: dict[str, Any] = {}
@@ -193,6 +259,25 @@ def M():
 # ---------------------------------------------------------------------------------------------------------- emulation
 
 
+async def _no_io() -> None:
+    return None
+
+
+def _make_io(yields: list):
+    """Cyclic supply of event-loop yields for the emulated lifecycle-lock / DBOS calls (empty list: the calls never suspend)."""
+    if not yields:
+        return _no_io
+    pos = [0]
+
+    async def io() -> None:
+        k = yields[pos[0] % len(yields)]
+        pos[0] += 1
+        for _ in range(k):
+            await asyncio.sleep(0)
+
+    return io
+
+
 def _build_classes() -> None:
     g = _m["g"]
     basic, plugin = g["basic"], g["plugin"]
@@ -203,11 +288,12 @@ def _build_classes() -> None:
     class MemLifecycle(life_mod.RunLifecycleLock):
         """In-memory lock with the documented state machine; every call is recorded with its virtual instant."""
 
-        def __init__(self, obs: dict, release_takes: float = 0.0):
+        def __init__(self, obs: dict, release_takes: float = 0.0, io: Any = None):
             self.state: dict[str, Any] = {}
             self.updated: dict[str, float] = {}
             self.obs = obs
             self.release_takes = release_takes  # virtual seconds the releasing->released write takes (every other call is instantaneous)
+            self.io = io or _no_io  # event-loop yields around the atomic effect of a call (case["io_yields"], FLAGS["resume_not_atomic"])
 
         def _rec(self, op: str, run_id: str, res: Any) -> None:
             self.obs["lock"].append({"t": VClock.t, "op": op, "res": getattr(res, "value", res), "state": getattr(self.state.get(run_id), "value", None)})
@@ -221,21 +307,26 @@ def _build_classes() -> None:
             self._rec("create", run_id, None)
 
         async def begin_release(self, run_id: str) -> bool:
+            await self.io()
             ok = self.state.get(run_id) == State.active
             if ok:
                 self._set(run_id, State.releasing)
             self._rec("begin_release", run_id, ok)
+            await self.io()
             return ok
 
         async def complete_release(self, run_id: str) -> None:
             if self.release_takes:
                 await asyncio.sleep(self.release_takes)
+            await self.io()
             ok = self.state.get(run_id) == State.releasing
             if ok:
                 self._set(run_id, State.released)
             self._rec("complete_release", run_id, ok)
+            await self.io()
 
         async def try_begin_resume(self, run_id: str, crash_timeout_seconds: float | None = None):
+            await self.io()
             s = self.state.get(run_id)
             if s is None or s == State.active:
                 res = None
@@ -245,15 +336,17 @@ def _build_classes() -> None:
             else:
                 res = State.releasing
             self._rec("try_begin_resume", run_id, res)
+            await self.io()
             return res
 
     class EmuBase(Sim):  # type: ignore[misc, valid-type]
         """Stands in for DBOSRuntime: see the module docstring."""
 
-        def __init__(self, wstore, obs: dict):
+        def __init__(self, wstore, obs: dict, io: Any = None):
             super().__init__()
             self.wstore = wstore
             self.obs = obs
+            self.io = io or _no_io
             self.incarnations: dict[str, list] = {}  # run_id -> queues of every run started under that id (strong references)
             self._pending_state: dict[str, Any] = {}
             self.on_idle_end = None  # harness observer: called when a run under this runtime ended with IdleReleasedEvent
@@ -286,7 +379,8 @@ def _build_classes() -> None:
             inc = self.incarnations.setdefault(run_id, [])
             inc.append(q)
             k = len(inc) - 1
-            self.obs["starts"].append({"t": VClock.t, "k": k, "carried": bool(serialized_state)})
+            # (alive_before: base runs of this id whose task has not ended at the moment this one is started -- the C26 observer)
+            self.obs["starts"].append({"t": VClock.t, "k": k, "carried": bool(serialized_state), "alive_before": sum(1 for o in inc[:-1] if not o.complete.done())})
 
             def done(task, k=k):
                 if task.cancelled():
@@ -304,25 +398,33 @@ def _build_classes() -> None:
 
         # -- the two DBOS calls of the decorator
         async def dbos_retrieve(self, run_id: str):
+            await self.io()
             inc = self.incarnations.get(run_id)
             if not inc:
                 raise _m["NoWf"](run_id)
             task = inc[-1].complete
+            io = self.io
 
             class Handle:
                 workflow_id = run_id
 
                 async def get_result(self, *a, **k):
-                    return await asyncio.shield(task)
+                    try:
+                        return await asyncio.shield(task)
+                    finally:
+                        await io()
 
             return Handle()
 
         async def dbos_delete(self, run_id: str) -> None:
+            await self.io()
             inc = self.incarnations.get(run_id) or []
             if inc and not inc[-1].complete.done():
-                self.obs["emu_gap"].append({"t": VClock.t, "what": "delete of a running workflow"})
-                inc[-1].complete.cancel()
+                # DBOS deletes the rows of a workflow whose coroutine is still executing in this process: the old control loop
+                # lives on next to whatever is started under the id afterwards (judged by the oracle: two_live_control_loops)
+                self.obs["deleted_running"].append({"t": VClock.t, "k": len(inc) - 1})
             self._queues.pop(run_id, None)
+            await self.io()
 
     _m.update(MemLifecycle=MemLifecycle, EmuBase=EmuBase, State=State)
 
@@ -330,14 +432,27 @@ def _build_classes() -> None:
 # ---------------------------------------------------------------------------------------------------------- workflow
 
 
+def _layout(case: dict) -> dict:
+    """Reply numbering: position p (one per entry of `gaps`) sends `size[p]` distinct replies first[p] .. first[p]+size[p]-1
+    (size 1 unless the position carries a burst); without bursts reply number == position."""
+    bursts = case.get("burst") or []
+    size = [len(bursts[p]["pre"]) if p < len(bursts) and bursts[p] else 1 for p in range(case["total"])]
+    first = [sum(size[:p]) for p in range(case["total"])]
+    pos_of = [p for p in range(case["total"]) for _ in range(size[p])]
+    return {"size": size, "first": first, "pos_of": pos_of, "n": len(pos_of), "any": any(k > 1 for k in size)}
+
+
 def _wf_factory(case: dict, log: dict, wake_evt: list):
     g = _m["g"]
     ge, step, Context, Workflow, rp = g["ge"], g["step"], g["Context"], g["Workflow"], g["rp"]
-    total = case["total"]
-    work = case["work"]
+    lay = _layout(case)
+    total = lay["n"]  # replies the run waits for (== case["total"] without bursts)
+    work = [case["work"][p] for p in lay["pos_of"]]  # per reply number
     wake = case.get("wake") or {}
     kind = wake.get("kind")
     at = wake.get("at")
+    if at is not None and at >= 0:
+        at = lay["first"][at]  # the wake-up is armed by the first reply of that position
 
     def enter(name, n, attempt):
         ent = {"step": name, "n": n, "attempt": attempt, "t_in": VClock.t, "t_out": None, "exit": None, "saw": None}
@@ -450,7 +565,11 @@ NEAR_AFTER = ["after", "just_after"]
 OFFSET = {"before": -0.25, "just_before": -EPS, "at": 0.0, "just_after": EPS, "after": 0.25}
 
 
-def strategy(tier: str = "quick"):
+def strategy(tier: str = "quick", bursts: bool = False):
+    """bursts=False: the C36 family (one send per position; unchanged).  bursts=True: the C26 family, see `_burst_strategy`."""
+    if bursts:
+        return _burst_strategy(tier)
+
     @st.composite
     def case(draw):
         total = draw(st.integers(2, 5))
@@ -494,6 +613,63 @@ def strategy(tier: str = "quick"):
     return case()
 
 
+def _burst_strategy(tier: str = "quick"):
+    """C26 family: as above, but at least one position -- the one whose gap lies just before / just after the release deadline or
+    beyond it -- sends a BURST of 2-3 distinct replies concurrently (see the module docstring, CASE FORMAT)."""
+
+    @st.composite
+    def case(draw):
+        total = draw(st.integers(2, 4))
+        I = draw(st.sampled_from(IDLE_TIMEOUTS))
+        short = [g for g in SHORT if g < I] + NEAR_BEFORE
+        beyond = [g for g in LONG if g > I]
+        release_takes = draw(st.sampled_from([0, 0, 0.5, 1.0]))
+        where = draw(st.integers(0, total - 1))  # the position of the mandatory burst
+        # its gap: just before the deadline (senders race the timer on an active run), just after it (run `releasing` when the
+        # lock's releasing->released write is slow, else freshly released) or well beyond it (released, handler stamped idle)
+        near = draw(st.sampled_from(NEAR_BEFORE + NEAR_AFTER * 2 + beyond[:2] * 2 + (["at"] if FLAGS["exact_deadline"] else [])))
+        many = FLAGS["multi_cycle"] or (release_takes == 0 and draw(st.booleans()))
+        gaps = [near if i == where else draw(st.sampled_from(short + NEAR_AFTER + beyond if many else short)) for i in range(total)]
+        work = [draw(st.sampled_from([0, 0, 0, 0.5, 1, 3])) for _ in range(total)]
+
+        def one_burst():
+            k = draw(st.integers(2, 3))
+            return {
+                # task i is the i-th one started at the instant of the send, yields pre[i] times to the event loop and then sends
+                # reply number first + order[i]
+                "pre": [draw(st.integers(0, 3)) for _ in range(k)],
+                "order": draw(st.permutations(list(range(k)))),
+            }
+
+        burst = [one_burst() if (i == where or draw(st.integers(0, 3)) == 0) else None for i in range(total)]
+        wake = None
+        wk = draw(st.sampled_from([None, None, None, "retry", "waiter"]))
+        if wk is not None:
+            at = draw(st.integers(-1, total - 2))
+            woken = work[at] if (wk == "retry" and at >= 0) else 0
+            delays = [d for d in WAKE_DELAYS if (d < I and (d + woken < I or FLAGS["wake_step_outlasts_timer"])) or (d >= I and FLAGS["wake_after_release"])]
+            if not delays:
+                work[at] = woken = 0
+                delays = [d for d in WAKE_DELAYS if d < I]
+            wake = {"kind": wk, "delay": draw(st.sampled_from(delays)), "at": at}
+        c = {
+            "total": total,
+            "idle_timeout": I,
+            "gaps": gaps,
+            "work": work,
+            "workers": draw(st.integers(1, 2)),
+            "wake": wake,
+            "release_takes": release_takes,
+            "ties": draw(st.lists(st.integers(0, 7), max_size=3)),
+            "burst": burst,
+        }
+        if FLAGS["resume_not_atomic"]:
+            c["io_yields"] = draw(st.sampled_from([[], [1], [0, 2], [2, 0, 1], [1, 3], [3, 1, 0, 2]]))
+        return c
+
+    return case()
+
+
 def in_domain(case: dict) -> str | None:
     """None if the case lies in the claimed domain, else the name of the FLAGS switch that would admit it."""
     I = float(case["idle_timeout"])
@@ -503,6 +679,8 @@ def in_domain(case: dict) -> str | None:
     reach = [g for g in gaps if g in ("at", "just_after", "after") or (isinstance(g, (int, float)) and float(g) >= I)]
     if not FLAGS["multi_cycle"] and len(reach) > 1 and float(case.get("release_takes", 0) or 0) > 0:
         return "multi_cycle"
+    if case.get("io_yields") and not FLAGS["resume_not_atomic"]:
+        return "resume_not_atomic"
     w = case.get("wake")
     if w:
         woken = case["work"][w["at"]] if (w["kind"] == "retry" and w["at"] >= 0) else 0
@@ -520,7 +698,7 @@ def _horizon(case: dict) -> float:
     tot = 0.0
     for g in case["gaps"]:
         tot += g if isinstance(g, (int, float)) else case["idle_timeout"] + 1.0
-    tot += sum(case["work"]) * 2 + case["idle_timeout"] * (case["total"] + 2) + 2 * float(case.get("release_takes", 0) or 0)
+    tot += sum(w * k for w, k in zip(case["work"], _layout(case)["size"])) * 2 + case["idle_timeout"] * (case["total"] + 2) + 2 * float(case.get("release_takes", 0) or 0)
     if case.get("wake"):
         tot += 3 * case["wake"]["delay"]
     return 60.0 + 10.0 * tot
@@ -530,7 +708,10 @@ def _drive(case: dict) -> dict:
     m = M()
     ge = m["g"]["ge"]
     I = float(case["idle_timeout"])
-    obs: dict = {"lock": [], "starts": [], "ends": [], "emu_gap": [], "sends": [], "marks": [], "final": None, "t_end": None}
+    obs: dict = {"lock": [], "starts": [], "ends": [], "emu_gap": [], "deleted_running": [], "resumes": [], "spans": [], "sends": [], "marks": [],
+                 "final": None, "t_end": None}
+    lay = _layout(case)
+    bursts = case.get("burst") or []
     log: dict = {"body": []}
     wake_evt: list = []
     H = _horizon(case)
@@ -576,10 +757,11 @@ def _drive(case: dict) -> dict:
             await asyncio.sleep(la + off - VClock.t)
 
     async def main():
-        genwf.CUR = genwf.Rec({"ties": case.get("ties", []), "ext": []})
+        rec = genwf.CUR = genwf.Rec({"ties": case.get("ties", []), "ext": []})
         store = m["mws"].MemoryWorkflowStore()
-        base = m["EmuBase"](store, obs)
-        lock = m["MemLifecycle"](obs, float(case.get("release_takes", 0) or 0))
+        io = _make_io(list(case.get("io_yields") or []))
+        base = m["EmuBase"](store, obs, io)
+        lock = m["MemLifecycle"](obs, float(case.get("release_takes", 0) or 0), io)
         DBOS.retrieve_workflow_async = staticmethod(base.dbos_retrieve)
         DBOS.delete_workflow_async = staticmethod(base.dbos_delete)
         runtime = m["idle_mod"].DBOSIdleReleaseDecorator(
@@ -588,6 +770,24 @@ def _drive(case: dict) -> dict:
             idle_timeout=I,
             lifecycle_lock=lambda: lock,
         )
+        # C26 observer: every call of the decorator's _do_resume (harness-side wrapper on the instance; the method itself runs unmodified).
+        # "i" = length of the lifecycle-lock log at the call: places the call between the lock operations.
+        real_resume = runtime._do_resume
+
+        async def observed_resume(run_id, pending_tick=None):
+            ent = {"t": VClock.t, "i": len(obs["lock"]), "t_ret": None, "outcome": None}
+            obs["resumes"].append(ent)
+            try:
+                res = await real_resume(run_id, pending_tick=pending_tick)
+                ent["outcome"] = "returned"
+                return res
+            except BaseException as e:  # noqa: BLE001
+                ent["outcome"] = "raised:" + type(e).__name__
+                raise
+            finally:
+                ent["t_ret"] = VClock.t
+
+        runtime._do_resume = observed_resume
         wf = _wf_factory(case, log, wake_evt)(runtime)
         store.handlers[HANDLER_ID] = m["aws"].PersistentHandler(
             handler_id=HANDLER_ID, workflow_name=wf.workflow_name, status="running", run_id=RUN_ID, started_at=boot.VDateTime.now(boot._dt.timezone.utc)
@@ -616,22 +816,49 @@ def _drive(case: dict) -> dict:
         base.on_idle_end = lambda: watchers.append(asyncio.ensure_future(mark_later()))
 
         try:
-            for n, gap in enumerate(case["gaps"]):
+            for p, gap in enumerate(case["gaps"]):
+                n = lay["first"][p]
                 off = float(gap) if isinstance(gap, (int, float)) else I + OFFSET[gap]
                 await until_quiet_for(off)
                 if VClock.t >= H:
                     break
                 await mark(f"before_send{n}")
-                ent = {"n": n, "t": VClock.t, "gap": gap, "quiet_for": VClock.t - last_activity(), "state_before": obs["marks"][-1]["state"], "error": None, "t_ret": None}
-                obs["sends"].append(ent)
-                try:
-                    await external.send_event(m["ticks"].TickAddEvent(event=ge.Reply(n=n)))
-                except Exception as e:  # noqa: BLE001
-                    ent["error"] = f"{type(e).__name__}: {e}"[:200]
-                ent["t_ret"] = VClock.t
-                await mark(f"after_send{n}")
-                # wait until this reply was processed (body returned), or give up at the horizon
-                while VClock.t < H and not any(b["step"] == "on_reply" and b["n"] == n and b["exit"] == "returned" for b in log["body"]):
+                b = bursts[p] if p < len(bursts) else None
+                if not b:
+                    ent = {"n": n, "t": VClock.t, "gap": gap, "quiet_for": VClock.t - last_activity(), "state_before": obs["marks"][-1]["state"], "error": None, "t_ret": None}
+                    obs["sends"].append(ent)
+                    try:
+                        await external.send_event(m["ticks"].TickAddEvent(event=ge.Reply(n=n)))
+                    except Exception as e:  # noqa: BLE001
+                        ent["error"] = f"{type(e).__name__}: {e}"[:200]
+                    ent["t_ret"] = VClock.t
+                    await mark(f"after_send{n}")
+                    ents = [ent]
+                else:
+                    # a burst: len(pre) distinct replies, each sent by its own task through its own external adapter; the tasks are
+                    # started at this instant in the generated order and yield pre[i] times to the event loop before sending
+                    quiet = VClock.t - last_activity()
+                    ents = [
+                        {"n": n + j, "t": VClock.t, "gap": gap, "quiet_for": quiet, "state_before": obs["marks"][-1]["state"], "error": None, "t_ret": None,
+                         "pos": p, "burst": len(b["pre"])}
+                        for j in range(len(b["pre"]))
+                    ]
+                    obs["sends"].extend(ents)
+
+                    async def one(ent, pre):
+                        for _ in range(pre):
+                            await asyncio.sleep(0)
+                        ent["state_at_send"] = getattr(lock.state.get(RUN_ID), "value", None)
+                        try:
+                            await runtime.get_external_adapter(RUN_ID).send_event(m["ticks"].TickAddEvent(event=ge.Reply(n=ent["n"])))
+                        except Exception as e:  # noqa: BLE001
+                            ent["error"] = f"{type(e).__name__}: {e}"[:200]
+                        ent["t_ret"] = VClock.t
+                        await mark(f"after_send{ent['n']}")
+
+                    await asyncio.gather(*[asyncio.ensure_future(one(ents[j], k)) for j, k in zip(b["order"], b["pre"])])
+                # wait until every reply of this position was processed (body returned), or give up at the horizon
+                while VClock.t < H and not all(any(x["step"] == "on_reply" and x["n"] == e["n"] and x["exit"] == "returned" for x in log["body"]) for e in ents):
                     ev = asyncio.Event()
                     wake_evt.append(ev)
                     try:
@@ -640,7 +867,7 @@ def _drive(case: dict) -> dict:
                         pass
                     finally:
                         wake_evt.remove(ev)
-                if ent["error"]:
+                if any(e["error"] for e in ents):
                     break
             # the run ends with the last reply; give everything that is still armed the time to fire
             inc = base.incarnations.get(RUN_ID) or []
@@ -664,6 +891,9 @@ def _drive(case: dict) -> dict:
             obs["t_end"] = VClock.t
             del handler
         finally:
+            obs["spans"] = [{"t0": x["t0"], "t1": x["t1"]} for x in getattr(rec, "runner_spans", []) if x["run_id"] == RUN_ID]
+            if obs["t_end"] is None:
+                obs["t_end"] = VClock.t  # the driver did not get to its end: a send that never returns (nothing left that could wake it)
             genwf.CUR = None
 
     try:
@@ -683,7 +913,9 @@ def run_case(case: dict) -> CaseResult:
         r.skipped = True  # outside the claimed domain (e.g. a hand-written replay); never produced by strategy()
         return r
     I = float(case["idle_timeout"])
-    total = case["total"]
+    lay = _layout(case)
+    total = lay["n"]  # replies sent / expected (== case["total"] without bursts)
+    pos_of = lay["pos_of"]
     L = float(case.get("release_takes", 0) or 0)
     try:
         obs = _drive(case)
@@ -792,8 +1024,12 @@ def run_case(case: dict) -> CaseResult:
 
     # ---- (c) a send after a release reloads the run
     n_reload_ok = 0
+    hung = [s for s in sends if s["t_ret"] is None and not s["error"]]
+    if hung:
+        r.v("send_never_returned", n=hung[0]["n"], state_before=hung[0]["state_before"], concurrent_senders=hung[0].get("burst", 1),
+            resume_calls=len(obs["resumes"]), lifecycle=marks[-1]["state"] if marks else None)
     for s in sends:
-        if s["state_before"] in ("released", "releasing") and not s["error"]:
+        if s["state_before"] in ("released", "releasing") and not s["error"] and s["t_ret"] is not None:
             after = next((k for k in marks if k["tag"] == f"after_send{s['n']}"), None)
             restarted = any(s["t"] - TOL <= x["t"] <= s["t_ret"] + TOL and x["k"] > 0 for x in obs["starts"])
             if not restarted or after is None or after["state"] != "active" or after["idle_since"] or not after["in_memory"]:
@@ -804,26 +1040,67 @@ def run_case(case: dict) -> CaseResult:
     # ---- (d) no exception escapes a send
     for s in sends:
         if s["error"]:
+            extra = {"concurrent_senders": s["burst"], "state_at_send": s.get("state_at_send")} if "burst" in s else {}
             r.v("send_raised", error=s["error"].split(":")[0], detail=s["error"][:160], n=s["n"], state_before=s["state_before"],
-                releases_before=len([x for x in completes if x["t"] <= s["t"] + TOL]))
+                releases_before=len([x for x in completes if x["t"] <= s["t"] + TOL]), **extra)
             break
 
-    # ---- end state: every reply processed exactly once, in order, with the state carried across release/reload
+    # ---- C26: control loops alive per run id, resumes per release (observers: EmuBase.run_workflow, _ControlLoopRunner.run, _do_resume)
+    for x in obs["starts"]:
+        if x.get("alive_before"):
+            r.v("two_live_control_loops", seen="base_run_started_while_previous_alive", incarnation=x["k"], alive_before=x["alive_before"],
+                old_run_deleted_while_running=bool(obs["deleted_running"]), concurrent_senders=max((s.get("burst", 1) for s in sends if abs(s["t"] - x["t"]) <= 1.0), default=1))
+            break
+    else:
+        spans = sorted(obs["spans"], key=lambda z: z["t0"])
+        for i, a in enumerate(spans):
+            a1 = INF if a["t1"] is None else a["t1"]
+            clash = next((b for b in spans[i + 1:] if b["t0"] < a1 - TOL and a["t0"] < (INF if b["t1"] is None else b["t1"]) - TOL), None)
+            if clash is not None:
+                r.v("two_live_control_loops", seen="control_loop_spans_overlap", first=[a["t0"], a["t1"]], second=[clash["t0"], clash["t1"]])
+                break
+    lock_log = obs["lock"]
+    rel_idx = [i for i, x in enumerate(lock_log) if x["op"] == "begin_release" and x["res"] is True]
+    for k, i0 in enumerate([-1] + rel_idx):
+        i1 = rel_idx[k] if k < len(rel_idx) else len(lock_log)  # window: after release k-1 (k == 0: before any release) up to the next release
+        calls = [x for x in obs["resumes"] if i0 < x["i"] <= i1]
+        grants = [x for x in lock_log[i0 + 1:i1] if x["op"] == "try_begin_resume" and x["res"] == "released"]
+        if k == 0:
+            if calls:
+                r.v("resume_of_unreleased_run", resume_calls=len(calls), grants=len(grants), outcome=calls[0]["outcome"])
+                break
+            continue
+        if len(calls) > 1 or len(grants) > 1:
+            r.v("released_run_resumed_twice", release_index=k - 1, resume_calls=len(calls), ownership_grants=len(grants),
+                outcomes=[x["outcome"] for x in calls][:3], same_instant=len({x["t"] for x in calls}) == 1,
+                concurrent_senders=max((s.get("burst", 1) for s in sends if any(abs(s["t_ret"] - x["t_ret"]) <= TOL for x in calls if s["t_ret"] is not None and x["t_ret"] is not None)), default=1))
+            break
+
+    # ---- end state: every reply processed exactly once, in order (order among the replies of one burst is free), with the state carried
+    # across release/reload
+    def in_order(lst) -> bool:
+        """`lst` holds every reply exactly once and positions never go back (== `lst == want` when no position carries a burst)."""
+        return sorted(lst) == want and [pos_of[n] for n in lst] == pos_of
+
     done = [b["n"] for b in body if b["step"] == "on_reply" and b["exit"] == "returned"]
     want = list(range(total))
     fin = obs["final"] or {}
     if not send_failed:
-        if done != want:
+        order = (fin.get("result") or {}).get("order")
+        if not in_order(done):
+            extra = {"concurrent_senders": max(lay["size"])} if lay["any"] else {}
             r.v("replies_lost_or_duplicated", processed=done, want=want, sent=[s["n"] for s in sends], releases=len(completes),
-                cancelled_bodies=len([b for b in body if b["exit"] == "cancelled"]))
+                cancelled_bodies=len([b for b in body if b["exit"] == "cancelled"]), **extra)
         else:
-            bad = next((b for b in body if b["step"] == "on_reply" and b["exit"] == "returned" and b["saw"] != list(range(b["n"]))), None)
+            # what each step saw = the replies recorded before it: the prefix of the final record (== 0..n-1 without bursts)
+            ref = order if (isinstance(order, list) and in_order(order)) else want
+            bad = next((b for b in body if b["step"] == "on_reply" and b["exit"] == "returned" and b["saw"] != ref[: ref.index(b["n"])]), None)
             if bad is not None:
                 r.v("state_not_carried", at_reply=bad["n"], saw=bad["saw"], releases_before=len([x for x in completes if x["t"] <= bad["t_in"] + TOL]))
             elif fin.get("type") != "GStop":
                 r.v("run_did_not_complete", final=fin.get("type"), releases=len(completes), state=marks[-1]["state"] if marks else None)
-            elif (fin.get("result") or {}).get("order") != want or obs.get("state_got") != want:
-                r.v("state_not_carried", at_reply=None, result=(fin.get("result") or {}).get("order"), stored=obs.get("state_got"), releases_before=len(completes))
+            elif not isinstance(order, list) or not in_order(order) or obs.get("state_got") != order:
+                r.v("state_not_carried", at_reply=None, result=order, stored=obs.get("state_got"), releases_before=len(completes))
     # an armed internal wake-up fires when due (the run is in memory all that time: delay < idle_timeout)
     if wake and not FLAGS["wake_after_release"] and not send_failed:
         armed = [b for b in body if (wake["kind"] == "retry" and b["exit"] == "raised") or (wake["kind"] == "waiter" and b["exit"] == "waiting")]
@@ -831,6 +1108,12 @@ def run_case(case: dict) -> CaseResult:
             due = b["t_out"] + wake["delay"]
             if due >= t_last - TOL:
                 continue
+            # (with a burst the retried step's workers can all be busy with the other replies of the burst when the back-off ends:
+            #  the attempt then starts when a body of that step ends; never the case without bursts, where the run is idle by then)
+            rivals = [o for o in body if o is not b and o["step"] == b["step"] and o["t_in"] <= due + TOL and (o["t_out"] is None or o["t_out"] > due + TOL)]
+            if lay["any"] and len(rivals) >= case.get("workers", 1) and b["step"] == "on_reply":
+                if any(w["t_in"] >= due - TOL and any(o["t_out"] is not None and abs(o["t_out"] - w["t_in"]) <= TOL for o in body if o["step"] == b["step"]) for w in woke):
+                    continue
             if not any(abs(w["t_in"] - due) <= TOL for w in woke):
                 r.v("timed_wakeup_lost", wakeup=wake["kind"], delay=wake["delay"], idle_timeout=I, released_meanwhile=any(b["t_out"] < x["t"] < due + TOL for x in begins))
 
@@ -859,6 +1142,30 @@ def run_case(case: dict) -> CaseResult:
     if any(w >= I for w in case["work"]):
         r.classes.append("work_not_shorter_than_timeout")
     r.nontrivial = n_reload_ok > 0 and fin.get("type") == "GStop"
+    if lay["any"]:
+        # bursts (C26 family): in which lifecycle state the concurrent senders found the run, and whether they raced for the resume
+        near = False
+        for p in range(case["total"]):
+            grp = [s for s in sends if s.get("pos") == p]
+            if len(grp) < 2:
+                continue
+            st0 = grp[0]["state_before"]
+            r.classes.append("burst_while_" + str(st0))
+            r.classes.append(f"burst_of_{len(grp)}")
+            if st0 in ("released", "releasing"):
+                near = True
+                r.classes.append("burst_senders_race_for_resume")
+                if len({s["t_ret"] for s in grp}) > 1 or any(s["t_ret"] is not None and s["t_ret"] > s["t"] + TOL for s in grp):
+                    r.classes.append("burst_senders_waited_for_release_to_complete")
+            elif abs(grp[0]["quiet_for"] - I) <= 0.25 + TOL:
+                near = True
+                r.classes.append("burst_just_before_deadline")
+        if len(obs["resumes"]) >= 1 and any(s.get("burst") for s in sends):
+            r.classes.append("resumed_by_burst_sender" if any(abs(x["t_ret"] - s["t_ret"]) <= TOL for x in obs["resumes"] if x["t_ret"] is not None for s in sends if s.get("burst") and s["t_ret"] is not None) else "resumed_by_single_sender")
+        if case.get("io_yields"):
+            r.classes.append("lock_and_dbos_calls_suspend")
+        # non-trivial (C26 family) = the run completed and a burst hit a released/releasing run or landed within 0.25 s before the deadline
+        r.nontrivial = fin.get("type") == "GStop" and (n_reload_ok > 0 or near)
     r.sample = {"case": case, "release_begin": [x["t"] for x in begins][:4], "reloads": [x["t"] for x in obs["starts"] if x["k"] > 0][:4],
                 "sends": [[s["n"], s["t"], s["state_before"]] for s in sends], "final": fin.get("type")}
     return r
